@@ -358,7 +358,7 @@ def build_query(ctx: Ctx, ob, extra_axioms=()):
     ax.extend(sum_ext_axioms(reds, getattr(ctx, '_last_ground_apps', None)))
     allf = base + ax
     if uses_decl(allf, ops.NORM2):
-        ax.extend(ops.norm2_axioms(allf))
+        ax.extend(ops.norm2_axioms(allf, exact=getattr(ctx, 'exact_norm', False)))
     return fs + list(extra_axioms) + ax, goal
 
 
